@@ -169,6 +169,21 @@ def unit_test_cases():
     return out
 
 HAND = [
+ # conjunctions of three whose verdict must not depend on how two of them are grouped: a closed object, a second declaration of
+ # one of its members with another type, and a member that requires it without declaring it (unsatisfiable in every grouping);
+ # a closed tuple (additionalItems false, as many positions as maxItems) against one item schema that admits every position
+ {"tag": "hand:closed-conflict-required", "schemas": [{"type": "object", "properties": {"x": {"type": "string"}}, "additionalProperties": False},
+                                                      {"type": "object", "properties": {"x": {"type": "integer"}}}, {"type": "object", "required": ["x"]}],
+  "defs": {}, "cands": [{}, {"x": 1}, {"x": "s"}]},
+ {"tag": "hand:closed-conflict-optional", "schemas": [{"type": "object", "properties": {"x": {"type": "string"}, "y": {"type": "integer"}}, "additionalProperties": False},
+                                                      {"type": "object", "properties": {"x": {"type": "integer"}}}, {"type": "object", "required": ["y"]}],
+  "defs": {}, "cands": [{}, {"y": 1}, {"x": 1, "y": 1}, {"x": "s", "y": 2}]},
+ {"tag": "hand:closed-tuple-single", "schemas": [{"type": "array", "items": [{"type": "string"}, {"type": "integer"}], "additionalItems": False, "minItems": 2, "maxItems": 2},
+                                                 {"type": "array", "items": {"type": ["string", "integer"]}}],
+  "defs": {}, "cands": [["a", 1], ["a"], [1, "a"], ["a", 1, 2]]},
+ {"tag": "hand:tuple-single", "schemas": [{"type": "array", "items": [{"type": "string"}, {"type": "integer"}], "minItems": 2, "maxItems": 2},
+                                          {"type": "array", "items": {"type": ["string", "integer"]}}],
+  "defs": {}, "cands": [["a", 1], ["a"], [1, "a"]]},
  # the witnesses of the listed findings (also in KNOWN_FINDINGS.json)
  {"tag": "hand:int-number", "schemas": [{"type": "integer"}, {"type": "number"}], "defs": {}, "cands": [1, 2.5, "x"]},
  {"tag": "hand:array-items", "schemas": [{"type": "array", "items": {"type": "string"}}, {"type": "array", "items": {"type": "integer"}}], "defs": {}, "cands": [[], ["a"], [1]]},
@@ -424,8 +439,22 @@ def candidates(rng, case, per=3):
         seen.add(t); out.append(v)
     return out[:40]
 
+def arrange(case, p):
+    """the subschema list under an arrangement: a permutation of indices, some of them grouped — a nested tuple stands for a bare
+    `allOf` of those members (the grouping of a conjunction carries no meaning)"""
+    return [({"allOf": arrange(case, i)} if isinstance(i, tuple) else case["schemas"][i]) for i in p]
+
+def regroupings(n):
+    """arrangements that group two adjacent members of the identity / the reversed order into a nested allOf"""
+    out = []
+    if n >= 3:
+        for base in (list(range(n)), list(reversed(range(n)))):
+            for k in range(n - 1):
+                out.append(tuple(base[:k]) + ((base[k], base[k + 1]),) + tuple(base[k + 2:]))
+    return out
+
 def perms_of(rng, n):
-    if n <= 4: return list(itertools.permutations(range(n)))
+    if n <= 4: return list(itertools.permutations(range(n))) + (regroupings(n) if n == 3 else regroupings(n)[:2])
     base = [tuple(range(n)), tuple(reversed(range(n)))]
     while len(base) < 8:
         p = list(range(n)); rng.shuffle(p)
@@ -446,7 +475,7 @@ def make_cases(ctx):
 
 # ------------------------------------------------------------------ evaluation of one set of cases
 def req_line(case, p, with_cands=True):
-    r = {"schemas": [case["schemas"][i] for i in p], "defs": case["defs"]}
+    r = {"schemas": arrange(case, p), "defs": case["defs"]}
     if with_cands: r["cands"] = case["cands"]
     return json.dumps(r, ensure_ascii=False)
 
@@ -546,11 +575,24 @@ def check_case(c):
                       "what": "permuting the subschemas changes the accept-vector" if inst is not None else "one order panics, another does not"})
     return dis, fails
 
+def closed_requires_undeclared(text):
+    try: m = json.loads(text)
+    except Exception: return False
+    def go(x, n=6):
+        if n <= 0 or not isinstance(x, dict): return False
+        if x.get("additionalProperties") is False and any(r not in (x.get("properties") or {}) for r in x.get("required") or []): return True
+        return any(go(v, n - 1) for v in (x.get("properties") or {}).values()) or any(go(v, n - 1) for k in ("allOf", "anyOf", "oneOf") for v in x.get(k) or [])
+    return go(m)
+
 def attribute(c, fail, dis):
     """finding id for a property failure, or None (-> VIOLATION). The model must reproduce the real answers on the
     permutations involved and report a gap of the right kind; inputs outside the AST: python predicates."""
     ps = [fail["perm"]] + ([fail["perm2"]] if "perm2" in fail else [])
     if any(c["real"].get(p) == "panic" for p in ps) and pred_validation_panic(c): return "C09-validation-panic"
+    # the merge answers with a CLOSED object that requires a member it does not declare (no instance at all; the conflicting
+    # declaration was dropped because the object is closed): the converter makes that member a field of any value
+    if fail.get("stage") == "compiled" and fail["kind"] in ("order", "permissive", "never-accepts") and \
+            any(closed_requires_undeclared(t) for t in (fail.get("merged"), fail.get("merged2"))): return "C09-closed-required-undeclared"
     bad = {tuple(d["perm"]) for d in dis}
     ms = [c["model"].get(p) for p in ps]
     if all(m is not None and m["ans"] not in ("unsupported", "badrequest") for m in ms) and not any(tuple(p) in bad for p in ps):
@@ -605,7 +647,7 @@ def compiled_stage(ctx, cases, findings_hit, record_fail, name=None):
     for c in sel:
         perms = c["perms"][:6]
         defs = dict(c["defs"])
-        for i, p in enumerate(perms): defs["Perm%d" % i] = {"allOf": [c["schemas"][j] for j in p]}
+        for i, p in enumerate(perms): defs["Perm%d" % i] = {"allOf": arrange(c, p)}
         doc = {"$schema": "http://json-schema.org/draft-07/schema#", "definitions": defs}
         bc = b.add_case([{"root": doc}], {}, tag=c["tag"], ops_types=["Perm%d" % i for i in range(len(perms))])
         bc.c9, bc.perms9, bc.doc9 = c, perms, doc
